@@ -7,6 +7,20 @@ use std::panic::{AssertUnwindSafe, catch_unwind};
 
 thread_local! {
     static LAST_PANIC: RefCell<String> = const { RefCell::new(String::new()) };
+    static IN_SUBJECT: std::cell::Cell<bool> = const { std::cell::Cell::new(false) };
+}
+
+/// run `f` with panics attributed to the code under test (quiet); panics outside are harness bugs and are printed
+pub fn in_subject<T>(f: impl FnOnce() -> T) -> T {
+    let prev = IN_SUBJECT.with(|c| c.replace(true));
+    struct Reset(bool);
+    impl Drop for Reset {
+        fn drop(&mut self) {
+            IN_SUBJECT.with(|c| c.set(self.0));
+        }
+    }
+    let _r = Reset(prev);
+    f()
 }
 
 /// Install a quiet panic hook that remembers message and location per thread.
@@ -24,6 +38,9 @@ pub fn install_panic_hook() {
         };
         // strip the absolute prefix so keys are stable
         let loc = loc.rsplit_once("/repo/").map(|x| x.1.to_string()).unwrap_or(loc);
+        if !IN_SUBJECT.with(|c| c.get()) {
+            eprintln!("machinery panic (harness bug, not a verdict): {msg} @ {loc}");
+        }
         LAST_PANIC.with(|p| *p.borrow_mut() = format!("{msg} @ {loc}"));
     }));
 }
@@ -51,7 +68,7 @@ pub struct Exec {
 
 #[inline]
 pub fn run_rng(s: &dyn Sampler, rng: &mut ScriptRng) -> Outcome {
-    match catch_unwind(AssertUnwindSafe(|| s.sample(rng))) {
+    match catch_unwind(AssertUnwindSafe(|| in_subject(|| s.sample(rng)))) {
         Ok(v) => Outcome::Done(v),
         Err(p) => {
             if p.downcast_ref::<WordCapExceeded>().is_some() {
